@@ -152,7 +152,7 @@ DICT_STORE_ALLOWED = {
 }
 
 
-def check(ctx, rep: Report):
+def _check_main(ctx, rep: Report):
     # ---- A
     rep.rules["C03.A"] = "mutate_attr: raw write of a managed attribute is guarded by a successful check_type on every path, for all (inplace, force)"
     variants = [(i, f, None) for i in (False, True) for f in (False, True)]
@@ -425,3 +425,11 @@ class _ChainResolver:
             self.sites += 1
         self.sites -= 1          # the helper's own site was already counted once
         return True
+
+
+def check(ctx, rep):
+    from . import metarules, shared
+    _check_main(ctx, rep)
+    metarules.inherited_rebuild(ctx, rep, "C03.META")
+    from .c15 import shapes_rule
+    shapes_rule(ctx, rep, "C03.CT")     # the checker every route relies on
